@@ -132,6 +132,9 @@ def run(check, ctx):
     c_aes.aes_tables(check, ctx)
     from . import c_salsa
     c_salsa.salsa_tables(check, ctx, groups=("stream",))
+    from .. import crules
+    crules.streaming_length_rule(check, ctx.cdb, rule="M", only_tus=("Salsa20.c", "chacha20.c", "ARC4.c", "raw_ctr.c", "raw_cfb.c", "raw_ofb.c", "raw_cbc.c", "raw_ecb.c", "raw_ocb.c",
+                                                                    "ghash_portable.c", "ghash_clmul.c", "strxor.c", "AES.c", "AESNI.c", "DES.c", "DES3.c", "CAST.c", "ARC2.c", "blowfish.c"))
     from . import aead_compose
     aead_compose.compose_tables(check, ctx, modes=("eax", "siv", "ccm", "gcm", "ocb", "chachapoly", "openpgp"))
     check.undecided.append("the block primitives beyond the published vectors and the AES.c / AESNI.c sibling table; "
